@@ -272,3 +272,80 @@ func VH_C12_pipelined_order() {
 	}
 	vAssert(vLocksHeld() == 0, "C12.pipe.no-lock-held")
 }
+
+// The Send path (local callers): the arguments placed by the caller reach the implementation, the
+// results the implementation writes reach the caller's Answer, an error from the implementation or
+// from PlaceArgs is the Answer's error and the implementation is not run in the latter case; a call
+// that acknowledges before it returns gives an Answer that resolves when it returns; each call
+// completes exactly once; releasing the answer twice is harmless.
+func VH_C12_send_path() {
+	arg, res := vNondetU64(), vNondetU64()
+	acks := vConcS(int(vNondetU8()), 2) == 1
+	fails := vConcS(int(vNondetU8()), 2) == 1
+	placeFails := vConcS(int(vNondetU8()), 2) == 1
+	gate := make(chan struct{})
+	ran := 0
+	var seen uint64
+	impl := func(ctx context.Context, call *Call) error {
+		ran++
+		seen = call.Args().Uint64(0)
+		if acks {
+			call.Ack()
+			<-gate
+		}
+		if fails {
+			return vFault{}
+		}
+		r, err := call.AllocResults(capnp.ObjectSize{DataSize: 8})
+		vAssume(err == nil)
+		r.SetUint64(0, res)
+		return nil
+	}
+	m := capnp.Method{InterfaceID: 7, MethodID: 1}
+	srv := New([]Method{{Method: m, Impl: impl}}, nil, nil, nil)
+	ans, rel := srv.Send(context.Background(), capnp.Send{
+		Method:   m,
+		ArgsSize: capnp.ObjectSize{DataSize: 8},
+		PlaceArgs: func(s capnp.Struct) error {
+			if placeFails {
+				return vFault{}
+			}
+			s.SetUint64(0, arg)
+			return nil
+		},
+	})
+	vReach("sent")
+	vAssert(vLocksHeld() == 0, "C12.send.no-lock-held")
+	if placeFails {
+		_, err := ans.Struct()
+		vAssert(err != nil && ran == 0, "C12.send.place-args-error-is-the-answer-and-nothing-runs")
+		rel()
+		return
+	}
+	vAssert(ran == 1 && seen == arg, "C12.send.arguments-reach-the-implementation")
+	if acks {
+		vAssert(!vIsDoneCh(ans.Done()), "C12.send.acknowledged-call-still-running")
+		close(gate)
+		vSettle()
+	}
+	vAssert(vIsDoneCh(ans.Done()), "C12.send.answer-resolves-when-the-call-returns")
+	s, err := ans.Struct()
+	if fails {
+		vAssert(err != nil, "C12.send.implementation-error-is-the-answer")
+	} else {
+		vAssert(err == nil && s.Uint64(0) == res, "C12.send.results-reach-the-caller")
+	}
+	vAssert(ran == 1, "C12.send.completes-exactly-once")
+	rel()
+	rel()
+	vAssert(vLocksHeld() == 0, "C12.send.release.no-lock-held")
+}
+
+func vIsDoneCh(ch <-chan struct{}) bool {
+	select {
+	case <-ch:
+		return true
+	default:
+		return false
+	}
+}
